@@ -27,13 +27,21 @@ KW = ["z1", "k2"]
 ANN = {"s": "int", "b": "str", "e": "float", "z1": "bool", "k2": "Optional[int]"}
 DEFAULTS = {"s": "1", "b": "'two'", "e": "3.5", "z1": "True", "k2": "None"}
 DOC_DEFAULTS = {"s": 0, "b": "zero", "e": 0.0, "z1": False, "k2": 0}  # what the docstring claims in 'conflict' mode
+# variant 2: less common types and default values (compound types on defaulted parameters, a one-character quote string,
+# a negative int, an exponent float, zero on an Optional)
+ANN_X = {"s": "Union[int, float]", "b": "Optional[str]", "e": "float", "z1": "bool", "k2": "Optional[int]"}
+DEFAULTS_X = {"s": "-1", "b": "'\"'", "e": "1e-07", "z1": "False", "k2": "0"}
+# variant 3: the docstring states a type that differs from the annotation (documented information takes precedence)
+DOC_TYPE_ALT = {"s": "float", "b": "Optional[str]", "e": "int", "z1": "Optional[bool]", "k2": "int"}
 STYLES = ("rest", "numpydoc", "google")
 FORMS = ("function", "self", "cls", "class_init", "class_init_nested_before", "class_init_nested_after", "class_init_module",
          # the same definitions handed over as live objects (imported from a module file that is rewritten for every case
          # under the same module name and the same qualified names)
          "live_function", "live_class_init",
          # a class whose interface is its attributes (annotated or plain assignments), documented by :cvar lines
-         "class_attrs")
+         "class_attrs",
+         # a class merged with a static method of its own (no receiver argument)
+         "class_static_merge")
 # the class + __init__ form in richer surroundings: a nested helper class with its own __init__ before / after the
 # outer __init__; a module (searched by class name) whose earlier class has a name that is a suffix of the wanted one
 HELPER = "    class Helper(object):\n        def __init__(self, key, value=2):\n            self.key = key\n\n"
@@ -79,12 +87,19 @@ def build_cases(tier):
                             has_sig_default = any((i < p and i >= p - d) or (p <= i < p + q and kwmask[i - p]) for i in sub)
                             if has_sig_default and order == "sig" and form != "class_attrs" and (tier == "thorough" or (style == "rest" and ann != "alt")):
                                 cases.append((p, d, q, kwmask, kwargs, ann, style, sub, order, form, 1))
+                            if order == "sig" and ann != "alt" and form in ("function", "class_init", "live_function", "class_static_merge") and \
+                                    (tier == "thorough" or style == "rest"):
+                                cases.append((p, d, q, kwmask, kwargs, ann, style, sub, order, form, 2))
+                            if order == "sig" and ann == "all" and style != "rest" and sub and form in ("function", "class_init", "live_function"):
+                                cases.append((p, d, q, kwmask, kwargs, ann, style, sub, order, form, 3))
     return cases
 
 
 def render(case):
     """Return (source, definition name path, expected list of (name, annotation or None, default src or None))."""
     p, d, q, kwmask, kwargs, ann, style, sub, order, form, docdef = case
+    variant, docdef = docdef, docdef == 1
+    ANN, DEFAULTS = (ANN_X, DEFAULTS_X) if variant == 2 else (globals()["ANN"], globals()["DEFAULTS"])
     names = POS[:p] + KW[:q] + (["kwargs"] if kwargs else [])
     sig_has_default = set(POS[p - d:p] if d else []) | set(n for j, n in enumerate(KW[:q]) if kwmask[j])
 
@@ -133,19 +148,23 @@ def render(case):
         if documented:
             lines += ["Parameters", "----------"]
         for n in documented:
-            t = ANN.get(n, "dict")
+            t = (DOC_TYPE_ALT if variant == 3 else ANN).get(n, "dict")
             lines += ["%s : %s" % (n, t), "    %s" % prose(n)]
             doc_types[n] = t
     else:
         if documented:
             lines.append("Args:")
         for n in documented:
-            t = ANN.get(n, "dict")
+            t = (DOC_TYPE_ALT if variant == 3 else ANN).get(n, "dict")
             lines.append("  %s (%s): %s" % (n, t, prose(n)))
             doc_types[n] = t
     doc = "\n".join([ind + '"""', ind + "Summary of it", ""] + [(ind + ln) if ln else "" for ln in lines] + [ind + '"""'])
     sig = ", ".join(parts)
-    if form == "class_attrs":
+    if form == "class_static_merge":
+        cdoc = doc.replace(":param ", ":cvar ") if style == "rest" else doc
+        cdoc = "\n".join(ln[4:] if ln.startswith("        ") else ln for ln in cdoc.split("\n"))
+        src = "class K(object):\n%s\n\n    @staticmethod\n    def build(%s):\n        return None\n" % (cdoc, sig)
+    elif form == "class_attrs":
         cdoc = doc.replace(":param ", ":cvar ") if style == "rest" else doc
         cdoc = "\n".join(ln[4:] if ln.startswith("        ") else ln for ln in cdoc.split("\n"))
         attrs = "".join("    %s%s = %s\n" % (n, (": %s" % a) if a else "", dv) for n, a, dv in exp)
@@ -187,7 +206,7 @@ def live_object(src, name):
         sys.path.insert(0, _LIVE["dir"])
     path = os.path.join(_LIVE["dir"], "c07live.py")
     with open(path, "w") as f:
-        f.write("from typing import Optional\n" + src)
+        f.write("from typing import Optional, Union\n" + src)
     sys.modules.pop("c07live", None)
     importlib.invalidate_caches()
     import linecache
@@ -212,6 +231,8 @@ def parse_case(case, src):
         return parse.function(fn)
     if form == "class_attrs":
         return parse.class_(tree.body[0])
+    if form == "class_static_merge":
+        return parse.class_(tree.body[0], merge_inner_function="build")
     if form == "class_init_module":
         return parse.class_(tree, class_name="TrainK", merge_inner_function="__init__")
     return parse.class_(tree.body[0], merge_inner_function="__init__")
@@ -220,11 +241,14 @@ def parse_case(case, src):
 def python_view(case, src):
     import typing
 
-    ns = {"Optional": typing.Optional}
+    ns = {"Optional": typing.Optional, "Union": typing.Union}
     exec(compile(src, "<c07>", "exec"), ns)
     form = {"live_function": "function", "live_class_init": "class_init"}.get(case[9], case[9])
     if form == "class_attrs":
         return [(n, "ATTRIBUTE", v) for n, v in ns["K"].__dict__.items() if not n.startswith("__")]
+    if form == "class_static_merge":
+        sig = inspect.signature(ns["K"].build)
+        return [(n, prm.kind.name, None if prm.default is prm.empty else prm.default) for n, prm in sig.parameters.items()]
     obj = ns["f"] if form == "function" else (ns["K"].__dict__["f"] if form in ("self", "cls") else
                                              ns["TrainK" if form == "class_init_module" else "K"].__init__)
     if isinstance(obj, classmethod):
@@ -278,11 +302,14 @@ class C07(core.Check):
         c = case_tuple(case)
         src, exp, documented, doc_types = render(c)
         p, d, q, kwmask, kwargs, ann, style, sub, order, form, docdef = c
+        variant, docdef = docdef, docdef == 1
         n = p + q + (1 if kwargs else 0)
         und = n - len(sub)
         base = {"form": form, "style": style, "ann": ann, "order": order if len(sub) > 1 else "-",
                 "n": n, "n_doc": len(sub), "shape": "p%dd%dq%d%s%s" % (p, d, q, "".join("D" if m else "-" for m in kwmask), "K" if kwargs else ""),
                 "documented": ",".join(documented), "doc_states_default": bool(docdef)}
+        if variant > 1:
+            base["variant"] = {2: "uncommon_types_and_values", 3: "doc_type_differs"}[variant]
         pv = python_view(c, src)
         assert [x[0] for x in pv] == [e[0] for e in exp], (pv, exp)
         try:
@@ -314,6 +341,8 @@ class C07(core.Check):
             pt = rm.norm_type(prm.get("typ")) if prm.get("typ") else None
             if name == "kwargs":
                 ok = pt in (None, "Optional[dict]", "dict")
+            elif variant == 3 and name in doc_types:
+                ok = pt == rm.norm_type(doc_types[name])  # documented information takes precedence
             elif annot is not None:
                 ok = pt == rm.norm_type(annot)
             elif name in doc_types:
